@@ -103,7 +103,9 @@ def values_part(ck, tier):
         with np.errstate(all="ignore"):
             p_far, c_far = np.asarray(kde(far), dtype=float), np.asarray(kde.cdf(far), dtype=float)
             c_one = [float(kde.cdf(float(v))) for v in far]
-        if not (np.array_equal(p_far, np.zeros(8)) and np.array_equal(c_far, [0, 0, 0, 0, 1, 1, 1, 1]) and c_one == [0, 0, 0, 0, 1, 1, 1, 1]):
+        want_far = np.array([0, 0, 0, 0, 1, 1, 1, 1], dtype=float)
+        if not (np.array_equal(p_far, np.zeros(8)) and np.all(np.abs(c_far - want_far) <= 1e-12) and np.all(np.abs(np.array(c_one) - want_far) <= 1e-12)
+                and np.all(np.diff(c_far) >= 0)):            # (1 up to rounding of the sum of n terms 1/n)
             ck.violation("far outside the data range the density is 0 and the cumulative function is 0 on the left, 1 on the right (non-decreasing)",
                          {**ident, "points": far, "pdf": p_far, "cdf": c_far, "cdf_scalar_calls": c_one}, site="GaussianKDE.cdf:far")
         # one work array re-filled IN PLACE between two evaluations (the same array object, other points): the values at its current content
